@@ -107,6 +107,12 @@ def collect(ctx, sub="c01", extra=()):
             d["panic"] = r[2]
             d["src"] = vlib.unesc(r[3]) if len(r) > 3 else None
     feats = next((r[1] for r in rows if r[0] == "#FEATS"), "")
+    # witnesses of KNOWN findings that another property owns are run by that property's check only
+    own = ctx.pid
+    for f in getattr(ctx, "findings", []):
+        w = f.get("witness") or ""
+        if f.get("status") == "known" and f.get("property") not in (own,) and w.startswith("corpus/"):
+            progs.pop("corpus:" + w[len("corpus/"):], None)
     return progs, feats
 
 def evaluate(ctx, progs):
